@@ -838,6 +838,22 @@ example : dftCall (fun (w : ℚ) n => pw w n) .once [1, 2, 3] (some [1, -1, 1]) 
   decide +kernel
 example : dftCall (fun (w : ℚ) n => pw w n) .sized [1, 2, 3] (some [1]) none = .ok [2] := by decide +kernel
 
+-- section 10 / 11
+example : respSpecTerms (denseTerms 0 [(1 : ℚ), 0, 3]) (denseTerms 0 [0, 2, 1]) 2 = Resp.val (13/8) ∧
+    respSpec [(1 : ℚ), 0, 3] [0, 2, 1] 2 = Resp.val (13/8) := by decide +kernel                  -- 10b, a stored zero, a shift
+example : respOfFilter [(1 : GRat)] [1, ⟨-6/5, 0⟩, 1] ⟨3/5, -4/5⟩ = Resp.nan := by decide +kernel   -- 10d: an exact pole at a Pythagorean point
+example : ∃ c ∈ [(1 : GRat), ⟨-6/5, 0⟩, 1], c ≠ 0 := ⟨1, by simp, by decide +kernel⟩
+example : respOfFilter [(2 : ℚ), 1] (convL [1, -(-1)] [1, 2]) (-1) = Resp.nan := by decide +kernel  -- 10g: at the pole ω = π
+example : respOfFilter [(2 : ℚ), 1] (convL [1, -(-1)] [1, 2]) (-1 + 1/1024) = Resp.val (-524800/511) := by
+  decide +kernel                                                                                    -- 10g: next to it
+example : (-1 : ℚ) * (-1 + 1/1024) ≠ 1 ∧ evalDirect [(1 : ℚ), 2] (-1 + 1/1024) ≠ 0 := by decide +kernel
+example : C04.fspec [(1 : ℚ), 2, 0, 3] [] 1 0 [] [] [1, 1, 1, 1, 1] = [1, 3, 3, 6, 6] := by decide +kernel   -- 11a/b, u = 1
+example : C04.fspec [(1 : ℚ), 2] [] 1 0 [] [] ((List.range 4).map fun k => pw (2 : ℚ) k) = [1, 4, 8, 16] ∧
+    evalDirect [(1 : ℚ), 2] (1 / 2) = 2 := by decide +kernel                                        -- 11b: y_n = H·2^n from n = 1
+example : dft (fun (w : ℚ) n => pw w n) (List.zipWith (fun x y => 3 * x + y) [1, 2] [0, 5]) [1, -1] true
+    = some [7, -4] ∧ dft (fun (w : ℚ) n => pw w n) [1, 2] [1, -1] true = some [3/2, -1/2] ∧
+      dft (fun (w : ℚ) n => pw w n) [0, 5] [1, -1] true = some [5/2, -5/2] := by decide +kernel     -- 11e: 3·(3/2) + 5/2 = 7
+
 end ALV.Props.C12
 
 #write_audit "C12"
